@@ -191,7 +191,8 @@ End History.
     parse differs between the history and the fresh parser.  The body of a parse is modelled as:
     every non-configuration member gets a value derived from the document (dirt), except fXMLVersion,
     which is written only when the document carries an XML declaration. *)
-Record docinfo := { d_id : N; d_version : N (* 0 = no XMLDecl, 1 = "1.0", 2 = "1.1" *) }.
+Record docinfo := { d_id : N; d_version : N (* 0 = no XMLDecl, 1 = "1.0", 2 = "1.1" *);
+                    d_undecl : bool (* contains elements that are not declared in its schema *) }.
 
 Definition faithful_body (sc : string) (inv : inventory) (d : docinfo) (k : nat) (s : state) : state :=
   fun m =>
@@ -199,6 +200,8 @@ Definition faithful_body (sc : string) (inv : inventory) (d : docinfo) (k : nat)
     | Some Config => s m
     | Some _ => if String.eqb m "fXMLVersion"
                 then (match d_version d with 0%N => s m | 1%N => 0%N | _ => 1%N end)
+                else if String.eqb m "fSchemaElemNonDeclPool" || String.eqb m "fElemNonDeclPool"
+                then (if d_undecl d then (100 + d_id d)%N else s m)    (* filled only by undeclared schema elements *)
                 else (100 + d_id d + N.of_nat k)%N
     | None => s m
     end.
